@@ -426,9 +426,9 @@ func parseSpec(s string) (SpecNode, error) {
 		whole := true
 		for i := 0; i < len(s)-1; i++ {
 			switch s[i] {
-			case '(':
+			case '(', '[':
 				depth++
-			case ')':
+			case ')', ']':
 				depth--
 			}
 			if depth == 0 {
